@@ -357,6 +357,12 @@ SameLists(a, b) == /\ Range(a.x) = Range(b.x) /\ Range(a.v) = Range(b.v) /\ Rang
 RECURSIVE Called(_)
 Called(e) == (IF e.k = "call" THEN {e.n} ELSE {}) \cup UNION {Called(e.a[i]) : i \in DOMAIN e.a}
 
+(* a call whose argument mentions no variable: a computer algebra system may fold it using the real function's
+   value (e.g. the sign of tan(2)); such programs are checked here but not replayed *)
+RECURSIVE Closed(_), HasClosedCall(_)
+Closed(e) == e.k \notin {"ref", "der", "time"} /\ \A i \in DOMAIN e.a : Closed(e.a[i])
+HasClosedCall(e) == (e.k = "call" /\ e.n # "abs" /\ Closed(e.a[1])) \/ \E i \in DOMAIN e.a : HasClosedCall(e.a[i])
+
 Tags(p) ==
     LET syA == Symbols(p, AsBuilt)
         syI == Symbols(p, Intended)
@@ -373,6 +379,7 @@ Tags(p) ==
         \cup (IF \E i \in DOMAIN p.vars : p.vars[i].pre = "discrete" THEN {"discrete"} ELSE {})
         \cup (IF \E i \in DOMAIN p.vars : p.vars[i].pre \in {"parameter", "constant"} /\ p.vars[i].val \in {"neg", "expr"}
               THEN {"valexpr"} ELSE {})
+        \cup (IF \E q \in DOMAIN p.eqs : HasClosedCall(p.eqs[q].l) \/ HasClosedCall(p.eqs[q].r) THEN {"closed-call"} ELSE {})
         \cup (IF Uses(p, {"call"}) THEN {"has-call"} ELSE {})
         \cup (IF Uses(p, {"der"}) THEN {"has-der"} ELSE {})
         \cup (IF Uses(p, {"time"}) THEN {"has-time"} ELSE {})
@@ -471,7 +478,7 @@ Programs ==
              \cup NameProgs(AllPairs, {"", "sin", "abs"}) \cup NameExtra
              \cup ClassProgs(2) \cup ClassProgs(3)
       [] Family = "cex" ->       \* small family on which the as-built switches must fail
-             PrecProgs(S2({}), PalA, "prec") \cup NameProgs({<<2, 3>>, <<5, 6>>, <<1, 12>>, <<1, 13>>, <<1, 10>>}, {"", "sin"})
+             PrecProgs(K2({}), PalA, "prec") \cup NameProgs({<<2, 3>>, <<5, 6>>, <<1, 12>>, <<1, 13>>, <<1, 10>>}, {"", "sin"})
              \cup ClassProgs(1)
       [] Family = "file" ->      \* programs drawn by the harness (deep random trees), same semantics
              LET f == JsonDeserialize(IOEnv.PROG_FILE) IN {f[i] : i \in DOMAIN f}
